@@ -512,7 +512,12 @@ impl Serialize for Extensions {
             ExtensionsVariantV1::Causal(extensions) => {
                 seq.serialize_element(&extensions.log_id)?;
                 seq.serialize_element(&extensions.timestamp)?;
-                seq.serialize_element(&extensions.previous)?;
+
+                // Encode the set in a canonical order, equal extensions need to result in equal
+                // bytes as they are part of the signed and hashed header.
+                let mut previous: Vec<&Hash> = extensions.previous.iter().collect();
+                previous.sort();
+                seq.serialize_element(&previous)?;
             }
         }
 
